@@ -296,7 +296,9 @@ class EventMixin (object):
         rv = event._invoke(handler, *args, **kw)
       else:
         rv = handler(event, *args, **kw)
-      if rv is None: continue
+      if rv is None:
+        if classCall and event.halt: break
+        continue
       if rv is False:
         self.removeListener(eid)
       if rv is True:
